@@ -28,9 +28,14 @@ class G:
     def __init__(self, r, nrules=None):
         self.r = r
         n = nrules or r.weighted([(1, 2), (2, 4), (3, 4), (4, 3), (5, 1)])
-        self.names = RULES[:n]
+        pool = RULES if r.chance(0.85) else r.choice([["R\u00e8gle", "_x1", "\u0394", "B2", "Comment", "E_"], ["Model", "Comment", "Item", "X", "Y", "Z"]])
+        self.names = pool[:n]
         self.header = []
         self.rules = [self.rule(nm) for nm in self.names]
+        self.sep = r.weighted([(" ", 8), ("\n    ", 2), ("\t", 1)])
+        self.comments = {}
+        if r.chance(0.15):
+            self.comments[r.below(n)] = r.choice(["// a comment", "/* block\n comment */", "// A: B#;", "/* ' */"])
 
     # -- pieces
     def smatch(self):
@@ -113,8 +118,10 @@ class G:
 
     def text(self):
         out = list(self.header)
-        for ru in self.rules:
-            out.append("%s%s: %s;" % (ru["name"], ru["params"], ru["body"]))
+        for i, ru in enumerate(self.rules):
+            if i in self.comments:
+                out.append(self.comments[i])
+            out.append("%s%s:%s%s%s;" % (ru["name"], ru["params"], self.sep, ru["body"], self.sep if self.sep != " " else ""))
         return "\n".join(out) + "\n"
 
 
